@@ -132,7 +132,11 @@ pub fn new_sys(cfg: &ICfg) -> Result<ISys, Fail> {
     let pid = std::process::id();
     let tag = format!("hn{pid}x{n}_");
     let base = PathBuf::from(format!("/verif/.run/h_names-{pid}/{n}"));
+    // leftovers of an earlier (killed) process with the same pid
     let _ = std::fs::remove_dir_all(&base);
+    for n in shm_entries(&tag) {
+        let _ = std::fs::remove_file(format!("/dev/shm/{n}"));
+    }
     std::fs::create_dir_all(&base).map_err(|e| setup_fail("create base", e))?;
     let a = make_dom(cfg.a, &tag, &base)?;
     let b = make_dom(cfg.b, &tag, &base)?;
@@ -289,7 +293,7 @@ impl ISys {
     }
 
     /// what each side can see must be exactly what exists in its own domain
-    fn probe(&self, after: &str) -> Result<(), Fail> {
+    fn probe(&self, actor: Side, after: &str) -> Result<(), Fail> {
         for side in [Side::A, Side::B] {
             let me = &self.doms[idx(side)];
             let other = &self.doms[1 - idx(side)];
@@ -367,7 +371,8 @@ impl ISys {
                     Err(e) => return Err(Fail::new("list-failed", "Service::does_exist".to_string(), format!("{e:?} after {after}; {rel}"))),
                 }
                 // ---- open
-                if let Some(node) = &me.node {
+                // (the acting side's own view of its own services is not what this property is about)
+                if let (Some(node), true) = (&me.node, side != actor) {
                     match p {
                         Pat::PubSub => match node.service_builder(&service_name()).publish_subscribe::<u64>().open() {
                             Ok(h) => {
@@ -544,7 +549,7 @@ pub fn apply(s: &mut ISys, op: &IOp) -> Result<(), Fail> {
             );
         }
     }
-    s.probe(what)
+    s.probe(actor, what)
 }
 
 impl Drop for ISys {
